@@ -17,12 +17,12 @@ T = {
  'C11': ('kernel-checked over the tables regenerated from the running code: H, S, X, Y, Z, CNOT in both orientations act by the textbook tables and are valid; C(0..23): 24 valid, pairwise different, closed under compose and inverse, complete', 'all named gates at every position (pair) of registers N<=6; rejection of bad indices and qubit counts'),
  'C12': ('map<->state round trips; to_state = image of |0..0> signs included; zero / one / maximally mixed constructors; anticommuting stabilizers rejected', 'to_state/to_map with signs, all constructors, stabilizer_state in every input format with dense projector products and QuTiP export'),
  'C13': ('each vectorised torch kernel of Model/Torch.lean (acq_grid, clifford_rotate(_signless), pauli_is_onsite, front, condense, map_to_state, state_to_map, batch_dot, vectorizable_stabilizer_expect) equals the pyclifford kernel on every well-formed input', 'every shared kernel and class-level function on the same inputs for both packages and for the models'),
- 'C14': ('measurement layer = direct measurement (outcomes, rank, invariant); gates never cross a measurement layer; post-selection returns the Born probability of the signed observable and the projected state; backward post-selects the record and rejects impossible / wrong-length records', 'programs interleaving gates and measurement layers on pure and mixed inputs; post-selection in every branch; own, supplied, impossible and wrong-length records'),
+ 'C14': ('measurement layer = direct measurement (outcomes, rank, invariant); gates never cross a measurement layer; post-selection returns the Born probability of the signed observable and the projected state; backward post-selects the record and rejects impossible / wrong-length records; circuit level: the layered circuit of any program of gates and measurement calls runs as the sequential trajectory (state, record order, log-probability, coins), record sliced per layer, own record replays', 'programs interleaving gates and measurement layers on pure and mixed inputs; post-selection in every branch; own, supplied, impossible and wrong-length records'),
  'C15': ('coefficient-function semantics: negation, scalars, concatenation, reduce (merge, phases folded, tolerance), sums, products (single terms, distributivity, phase bookkeeping), adding a number, Pauli@monomial dispatch; trace law proved under the hypothesis that identity-string terms carry phase 0 (the unrestricted law is proved FALSE of the code: known finding D13)', 'expression trees over all operand kinds with dyadic coefficients against dense matrices and the model; reduce around the tolerance; QuTiP exports'),
  'C16': ('every sampled pair anticommutes; a uniform tape gives a uniform partner (exactly 2-to-1) and uniform one-qubit pairs; random Pauli and random Clifford maps are valid for every tape and sign draw; sign bits are read back injectively', 'tape-controlled random_pair (all tapes N<=2), random_pauli, random_clifford; validity on the real RNG path; exact-tail-bound statistics'),
  'C17': ('ownership model: copy has equal value and fresh cells, frame rule, history independence (mutate copy / original / arguments), queries allocate only fresh cells, in-place operations never change arguments', 'snapshots / shares_memory / mutate-then-re-observe for every object kind and public method'),
- 'C18': ('pauli_diagonalize1 sends every non-identity string to +-Z on the target; pauli_diagonalize2 sends an anticommuting pair to Z and X/Y on the target (SBRG is oracle-checked only)', 'diagonalize (all i0, causal on/off), states, kernels, SBRG on commuting and generic Hamiltonians'),
- 'C19': ('sampled operators are group elements with the exact sign; the selector of density_matrix enumerates every bit string once; active rows are independent (injective combination); -1 is never a stabilizer', 'sample with recorded selector, uniformity bound, density_matrix expansion, classical-shadow snapshots with fixed and random circuits'),
+ 'C18': ('pauli_diagonalize1 sends every non-identity string to +-Z on the target; pauli_diagonalize2 sends an anticommuting pair to Z and X/Y on the target ; causal mode acts only on qubits >= i0, diagonalises the part supported there and leaves earlier qubits of every operator untouched; diagonalize(state) maps the tableau to |0..0> and back (SBRG is oracle-checked only)', 'diagonalize (all i0, causal on/off), states, kernels, SBRG on commuting and generic Hamiltonians'),
+ 'C19': ('sampled operators are group elements with the exact sign; the selector of density_matrix enumerates every bit string once; active rows are independent (injective combination); -1 is never a stabilizer; POVM = back-evolved zero state; every snapshot is a valid pure state stabilized with the recorded signs by the pulled-back Z_q and never negates a stabilizer of the base state (non-zero overlap)', 'sample with recorded selector, uniformity bound, density_matrix expansion, classical-shadow snapshots with fixed and random circuits'),
  'C20': ('parse(repr P) = P and parse(tokenize P) = P for all four phases; strings / code arrays / dicts agree; all sign prefixes; token code tables; negation and multiplication by 1,i,-1,-i; weight', 'every accepted description format, lists, index expressions, malformed input'),
 }
 checks = []
